@@ -684,18 +684,21 @@ def _tr_solver(fn):
         out = []
         for st in ss:
             # cache_extra = dict(k=<expr>, ...)
-            if (isinstance(st, ast.Assign) and len(st.targets) == 1 and _name(st.targets[0]) and isinstance(st.value, ast.Call)
-                    and _name(st.value.func) == "dict" and not st.value.args):
+            if (isinstance(st, ast.Assign) and len(st.targets) == 1 and _name(st.targets[0]) and isinstance(st.value, ast.Dict)
+                    and all(isinstance(k, ast.Constant) and isinstance(k.value, str) for k in st.value.keys)):
+                # (the module is read through harness/astnorm.py: `dict(k=<expr>, ...)` arrives here as the display {'k': <expr>, ...})
                 if roles["extra"]:
                     _err(where, st, "the keyword dict is built twice")
                 nm = _name(st.targets[0])
                 if nm in RESERVED or nm in params:
                     _err(where, st, "name of the keyword dict")
                 kws = []
-                for k in st.value.keywords:
-                    if k.arg not in KPARAM:
-                        _err(where, st, "keyword %s is not a parameter of _compute_key" % k.arg)
-                    kws.append("(%s, %s)" % (KPARAM[k.arg], sarg(k.value)))
+                if len({k.value for k in st.value.keys}) != len(st.value.keys):
+                    _err(where, st, "a key occurs twice in the keyword dict")
+                for k, v in zip(st.value.keys, st.value.values):
+                    if k.value not in KPARAM:
+                        _err(where, st, "keyword %s is not a parameter of _compute_key" % k.value)
+                    kws.append("(%s, %s)" % (KPARAM[k.value], sarg(v)))
                 roles["extra"] = nm
                 out.append("SExtra %s" % _coq_list(kws))
                 continue
@@ -888,7 +891,8 @@ def translate(src):
         if "put" in meth:
             part("put", lambda: _tr_put(meth["put"], kp, aliases))
     try:
-        stree = ast.parse(open(solver_py).read())
+        import astnorm
+        stree = astnorm.parse(open(solver_py).read())  # dict(k=v) is read as {'k': v}
         sfn = find_function(stree, SOLVER)
         part("solver", lambda: _tr_solver_checked(sfn))
     except TranslateError as e:
